@@ -108,6 +108,8 @@ var OddMods = []ModPool{
 	{"b\\q\"uote", []string{"v1.0.0"}, nil},
 	{"b\\(paren)", []string{"v1.0.0"}, nil},
 	{"trail\\", []string{"v1.0.0"}, nil},
+	{"trail \\", []string{"v1.0.0"}, nil},  // quoted form ends in an escaped backslash right before the closing quote
+	{"two\\\\", []string{"v1.0.0"}, nil},
 	{"end//", []string{"v1.0.0"}, nil}, // comment markers as the very last bytes
 	{"end/*", []string{"v1.0.0"}, nil},
 }
@@ -219,7 +221,7 @@ func (g *genState) line(verb string) Directive {
 		if verb == "require" {
 			d.Indirect = rapid.IntRange(0, 2).Draw(t, "indirect") == 0
 			if d.Indirect && gen.Chance(t, 15, "markerstyle") {
-				d.Marker = 1 + gen.Uniform(t, 4, "marker")
+				d.Marker = 1 + gen.Uniform(t, 6, "marker")
 			}
 		}
 	case "replace":
@@ -476,9 +478,9 @@ func (f File) SuffixOf(id int) string {
 func (d Directive) SuffixComment() string {
 	switch {
 	case d.Indirect && d.Suffix != "":
-		return []string{"// indirect; ", "//indirect; ", "//   indirect; ", "// indirect;  ", "//\tindirect;\t"}[d.Marker%5] + d.Suffix
+		return []string{"// indirect; ", "//indirect; ", "//   indirect; ", "// indirect;  ", "//\tindirect;\t", "// indirect;\u00a0", "// indirect;\u2003"}[d.Marker%7] + d.Suffix
 	case d.Indirect:
-		return []string{"// indirect", "//indirect", "//  indirect", "//\tindirect", "// indirect \t"}[d.Marker%5]
+		return []string{"// indirect", "//indirect", "//  indirect", "//\tindirect", "// indirect \t", "//\u00a0indirect", "// indirect\u00a0"}[d.Marker%7]
 	case d.Suffix != "":
 		return "// " + d.Suffix
 	}
